@@ -28,7 +28,16 @@ V2c == {[t |-> "arr", a |-> <<[t |-> "arr", a |-> <<>>]>>], [t |-> "obj", m |-> 
         [t |-> "arr", a |-> <<[t |-> "obj", m |-> <<[k |-> <<"a">>, v |-> [t |-> "arr", a |-> <<[t |-> "null"]>>]]>>], [t |-> "str", s |-> <<"x">>]>>]}
 V3 == Arrs(V2c \cup {[t |-> "null"]}) \cup Objs(V2c \cup {[t |-> "null"]})
 OddKeys == {[t |-> "obj", m |-> <<[k |-> k, v |-> [t |-> "null"]]>>] : k \in Keys}
-Values(d) == Scalars \cup OddKeys \cup V1 \cup (IF d >= 2 THEN V2 ELSE {}) \cup (IF d >= 3 THEN V3 ELSE {})
+\* strings and keys that spell JSON's own tokens: they are text like any other string
+TokStr == {<<"{">>, <<"}">>, <<"[">>, <<"]">>, <<",">>, <<":">>, <<"\"">>, <<"\\">>, <<"n","u","l","l">>, <<"t","r","u","e">>, <<"1">>}
+S_(x) == [t |-> "str", s |-> x]
+TokLike == {S_(x) : x \in TokStr}
+           \cup {[t |-> "obj", m |-> <<[k |-> k, v |-> S_(<<"x">>)]>>] : k \in TokStr}
+           \cup {[t |-> "arr", a |-> <<S_(<<"[">>), S_(<<"]">>)>>], [t |-> "arr", a |-> <<S_(<<"{">>), [t |-> "arr", a |-> <<>>], S_(<<"}">>)>>],
+                 [t |-> "obj", m |-> <<[k |-> <<"o">>, v |-> S_(<<"{">>)], [k |-> <<"c">>, v |-> S_(<<"}">>)]>>],
+                 [t |-> "obj", m |-> <<[k |-> <<"[">>, v |-> S_(<<"]">>)], [k |-> <<"}">>, v |-> [t |-> "obj", m |-> <<>>]]>>],
+                 [t |-> "arr", a |-> <<S_(<<>>), S_(<<"a">>), S_(<<>>), S_(<<"b">>)>>]}
+Values(d) == Scalars \cup OddKeys \cup TokLike \cup V1 \cup (IF d >= 2 THEN V2 ELSE {}) \cup (IF d >= 3 THEN V3 ELSE {})
 
 VARIABLES vals,   \* the top-level values of the text
           stack, toks, out, eof
